@@ -159,7 +159,7 @@ def run(ctx, rep):
             continue
         for n in own_nodes(f.node):
             arg = None
-            if isinstance(n, ast.Call) and isinstance(n.func, ast.Name) and n.func.id == "next" and n.args:
+            if isinstance(n, ast.Call) and unparse(n.func).split(".")[-1] in ("next", "islice") and n.args:
                 arg = n.args[0]
             elif isinstance(n, (ast.For, ast.comprehension)):
                 arg = n.iter
